@@ -660,10 +660,11 @@ func (te *TEnv) specCall(sf *SpecFunc, x ECall) TV {
 	}
 	if sf.Body != nil {
 		// macro expansion in the current heap
-		n := &TEnv{v: v, st: te.st, old: te.old, vars: map[string]TV{}, bound: te.bound, pkg: sf.Pkg, quant: te.quant, nowOld: te.nowOld}
+		n := &TEnv{v: v, st: te.st, old: te.old, vars: map[string]TV{}, bound: map[string]TV{}, pkg: sf.Pkg, quant: te.quant, nowOld: te.nowOld, loopEntry: te.loopEntry}
 		for i, p := range sf.Params {
 			n.vars[p.Name] = args[i]
 		}
+		// a macro body sees only its parameters (no capture of the caller's bound variables)
 		v.eng.specDepth++
 		if v.eng.specDepth > 40 {
 			sfail("spec function %s: expansion too deep (recursive definitions need an uninterpreted spec + axioms)", sf.Name)
